@@ -23,8 +23,8 @@ LEVEL_NOTE = "Trusted: z3 bit-vector theory; the uint8-view/unpackbits facade (v
 
 
 def bounds(tier):
-    return {"words": 2 if tier == "quick" else 3, "fronts_len": 5 if tier == "quick" else 7,
-            "fronts_2d": [(2, 3)] if tier == "quick" else [(2, 4), (3, 3)]}
+    return {"words": 2 if tier == "quick" else 4, "fronts_len": 5 if tier == "quick" else 8,
+            "fronts_2d": [(2, 3)] if tier == "quick" else [(2, 4), (3, 3), (3, 4)]}
 
 
 def setup():
